@@ -255,7 +255,7 @@ func valueDomain(s *summary, fail func(kind, op, detail string)) {
 			s.Evaluations++
 			for i := range w {
 				if i >= len(got) || got[i] != w[i] {
-					fail("bulk", op+" ("+be+"-backed float64)", fmt.Sprintf("element %d has bit pattern %#x, the value written has %#x (all: %x, written %x)", i, got[min2(i, len(got)-1)], w[i], got, w))
+					fail("value", op+" ("+be+"-backed float64)", fmt.Sprintf("element %d has bit pattern %#x, the value written has %#x (all: %x, written %x)", i, got[min2(i, len(got)-1)], w[i], got, w))
 					return
 				}
 			}
@@ -317,7 +317,7 @@ func valueDomain(s *summary, fail func(kind, op, detail string)) {
 		s.Evaluations += 4
 		for i, v := range ivals {
 			if ia.Get1(i) != v {
-				fail("bulk", "Set1/Get1 ("+be+"-backed int64)", fmt.Sprintf("element %d reads %d, written %d", i, ia.Get1(i), v))
+				fail("value", "Set1/Get1 ("+be+"-backed int64)", fmt.Sprintf("element %d reads %d, written %d", i, ia.Get1(i), v))
 			}
 		}
 		if mx, mn := ia.Maximum(), ia.Minimum(); mx != math.MaxInt64 || mn != math.MinInt64 {
@@ -340,7 +340,7 @@ func valueDomain(s *summary, fail func(kind, op, detail string)) {
 		}
 		for i, v := range uvals {
 			if ua.Get1(i) != v {
-				fail("bulk", "Set1/Get1 ("+be+"-backed uint64)", fmt.Sprintf("element %d reads %d, written %d", i, ua.Get1(i), v))
+				fail("value", "Set1/Get1 ("+be+"-backed uint64)", fmt.Sprintf("element %d reads %d, written %d", i, ua.Get1(i), v))
 			}
 		}
 		if mx, mn := ua.Maximum(), ua.Minimum(); mx != math.MaxUint64 || mn != 1<<53 {
